@@ -188,14 +188,26 @@ class Characterize(Contract):
 
 
 class IsAbstract(Contract):
-    """ASSUMED (trusted_body): moclo._utils.isabstract(cls) -- inspect.isabstract(cls) or some attribute is
-    NotImplemented -- is a constant of the class (reflection over dir(cls) is outside the modelled subset)"""
+    """moclo._utils.isabstract(cls): the class is abstract in the sense of abc, or one of the attributes dir(cls) lists
+    has the value NotImplemented (an undeclared cutter / signature).  A function of the class only (no state is read or
+    written): callers may treat it as a constant of the class."""
     file, qual = "moclo/moclo/_utils.py", "isabstract"
     props = ("C05",)
-    trusted_body = True
 
     def setup(self, ex, st, variant):
         return dict(cls=ex.models.sym_class("AbstractPart", tm.V("cls", INT)))
+
+    @staticmethod
+    def meaning(c):
+        i = tm.V("i", INT)
+        names = tm.app("cls_dir", tm.seq_sort(STR), c)
+        return tm.or_(tm.app("abc_abstract", BOOL, c),
+                      tm.exists_range(i, 0, tm.seqlen(names), tm.app("attr_is_notimplemented", BOOL, c, tm.seqnth(names, i))))
+
+    def ensures(self, ex, pre, st, a, result):
+        if not isinstance(result, VT):
+            return [("returns-a-truth-value", tm.FALSE)]
+        return [("abstract-iff-abc-abstract-or-some-attribute-is-NotImplemented", tm.eq(ex.truth(st, result), self.meaning(a["cls"].sym)))]
 
     def result(self, ex, st, a):
         c = a["cls"]
